@@ -152,13 +152,18 @@ def run(ctx: Ctx) -> None:
     perset_rule(ctx, "R11.perset")
 
     r = ctx.rule("R11.deleg", "the cache system delegates program storage to the lower instruction memory")
-    for name in ("instruction_at_address", "has_instructions", "get_representation", "get_address_range",
-                 "write_instruction", "write_instructions"):
+    from ..flowspec import signature
+    for name, returns in (("instruction_at_address", True), ("has_instructions", True), ("get_representation", True), ("get_address_range", True),
+                          ("write_instruction", False), ("write_instructions", False)):
         f = m.method(ic, name, own=True)
-        calls = [c for c in calls_in(f.node) if isinstance(c.func, ast.Attribute) and c.func.attr == name
-                 and self_attr(c.func.value, f.params[0], "instruction_memory")]
-        ok = len(calls) == 1 and [ast.unparse(a) for a in calls[0].args] == f.params[1:]
-        r.check(ok, f"InstructionMemoryCacheSystem.{name}", f.loc(), f"{name} does not delegate to self.instruction_memory.{name}")
+        ps = f.params[1:]
+        call = f"self.instruction_memory.{name}({', '.join(ps)})"
+        head = f"def {name}({', '.join(['self'] + ps)}):\n"
+        refs = [head + f"    return {call}\n", head + f"    return bool({call})\n"] if returns else [head + f"    {call}\n", head + f"    return {call}\n"]
+        got = signature(m, f)
+        ok = any(signature(m, f, ref) == got for ref in refs)
+        r.check(ok, f"InstructionMemoryCacheSystem.{name}", f.loc(), f"{name} does not (only) delegate to self.instruction_memory.{name} with its own arguments: "
+                f"returns {list(got[0])}, effects {[e[1] for e in got[1]]}")
     r.floor(6)
 
 
